@@ -41,19 +41,24 @@ theorem restart_graceful_partial (K : Codecs) (parseOk : TagLine → Bool) (s : 
     (hwf : WF K parseOk s) (hnc : nameCollision s.mem.pipes = false) :
     ∃ s', recover K parseOk (shutdown K s).disk = .started s' ∧ s'.mem = s.mem ∧ s'.disk.db = s.disk.db := by
   obtain ⟨ht, hp, hj, hpi⟩ := hwf
-  have hnc' : ∀ p ∈ s.mem.pipes, pipeInfoPath p.cfg.name ≠ pipesDat := by
-    intro p hp'
-    have := List.any_eq_false.mp hnc p hp'
-    simpa using this
   -- the disk after shutdown
   let e1 := K.pipes.enc (s.mem.pipes.map (·.cfg))
   let e2 := K.cidx.enc s.mem.cidx
-  have hf2 : (shutdown K s).disk.files = (s.disk.files.set pipesDat (some e1)).set .cindexDat (some e2) := by
-    simp only [shutdown, shutdownSteps, savePipesSteps, cindexSaveSteps, runSteps_append, runSteps_writeFile, e1, e2]
+  have hnc' : ∀ p ∈ s.mem.pipes, pipeInfoPath p.cfg.name ≠ pipesDat ∧ pipeInfoPath p.cfg.name ≠ pipesTmp := by
+    intro p hp'
+    have := List.any_eq_false.mp hnc p hp'
+    simpa using this
+  have hf2 : ∀ q, (shutdown K s).disk.files q =
+      if q = .cindexDat then some e2 else if q = pipesDat then some e1 else if q = pipesTmp then none else s.disk.files q := by
+    intro q
+    simp only [shutdown, shutdownSteps, cindexSaveSteps, runSteps_append, runSteps_writeFile, e1, e2]
+    by_cases hq : q = .cindexDat
+    · subst hq; simp
+    · rw [Files.set_other _ _ _ _ hq, savePipes_at]; simp [hq]
   have hdb : (shutdown K s).disk.db = s.disk.db := rfl
   generalize hF : (shutdown K s).disk.files = f2 at hf2
   have h2t : f2 .tindexDat = some (K.tidx.enc s.mem.tmap) := by
-    rw [hf2, Files.set_other _ _ _ _ (by simp), Files.set_other _ _ _ _ (by simp [pipesDat]), ht]
+    rw [hf2]; simp [pipesDat, pipesTmp, ht]
   have hload : loadState K.tidx parseOk f2 = some s.mem.tmap := by
     simp [loadState, h2t, hK.tidx.rt, hp]
   -- after the re-save of the tag index
@@ -64,15 +69,17 @@ theorem restart_graceful_partial (K : Codecs) (parseOk : TagLine → Bool) (s : 
   have h3c : f3 .cindexDat = some e2 := by
     rw [h3 _ (by simp [tindexPath]), hf2]; simp
   have h3p : f3 pipesDat = some e1 := by
-    rw [h3 _ (by simp [tindexPath, pipesDat]), hf2, Files.set_other _ _ _ _ (by simp [pipesDat])]; simp
+    rw [h3 _ (by simp [tindexPath, pipesDat]), hf2]; simp [pipesDat]
   have hci : cindexLoad K.cidx f3 = s.mem.cidx := by
     simp [cindexLoad, h3c, e2, hK.cidx.rt]
   have hinfo : ∀ p ∈ s.mem.pipes, loadPipeInfo K.pinfo f3 p.cfg.name = p.poss := by
     intro p hp'
     rw [← hpi p hp']
     apply loadPipeInfo_congr
-    rw [h3 _ (by simp [tindexPath, pipeInfoPath]), hf2, Files.set_other _ _ _ _ (by simp [pipeInfoPath]),
-      Files.set_other _ _ _ _ (hnc' p hp')]
+    rw [h3 _ (by simp [tindexPath, pipeInfoPath]), hf2]
+    have hA := (hnc' p hp').1
+    have hB := (hnc' p hp').2
+    rw [if_neg (by simp [pipeInfoPath]), if_neg hA, if_neg hB]
   have hpipes : pipesInit K.pipes K.pinfo f3 = some s.mem.pipes := by
     simp only [pipesInit, loadPipes, h3p, e1, hK.pipes.rt, Option.map_some]
     rw [map_cfg_poss _ _ hinfo]
@@ -91,110 +98,234 @@ theorem hulls_survive_graceful (K : Codecs) (parseOk : TagLine → Bool) (s : Sr
   obtain ⟨s', h1, h2, h3⟩ := restart_graceful_partial K parseOk s hK hwf hnc
   exact ⟨s', h1, by intro src lo hi; rw [h2, h3]⟩
 
-/-! ## the tag-index save is not crash-atomic (finding F05) -/
-
-/-- **Crash-atomic tag-index save, full statement**: wherever the save of `new` over `old` is cut, start-up finds
-`old` or `new`. FALSE today (`cex_tindex_window`, `cex_tindex_torn`): kept as a definition. -/
-def tindex_crash_atomic : Prop :=
-  ∀ (K : Codecs) (parseOk : TagLine → Bool) (f : Files) (old new : TMap) (js : List Src) (c : Cut), K.Laws →
-    f .tindexDat = some (K.tidx.enc old) → old.all (fun e => parseOk e.1) = true → new.all (fun e => parseOk e.1) = true →
-    js.all (tmapHasSrc old) = true → js.all (tmapHasSrc new) = true →
-    (checkConsistency K.tidx parseOk (diskAt f (tindexSaveSteps K.tidx f new) c) js).map (·.1) = some old ∨
-    (checkConsistency K.tidx parseOk (diskAt f (tindexSaveSteps K.tidx f new) c) js).map (·.1) = some new
+/-! ## the tag-index save is crash-atomic (finding F05, repaired) -/
 
 theorem saveSteps_eq (K : Codecs) (f : Files) (old new : TMap) (h : f .tindexDat = some (K.tidx.enc old)) :
     tindexSaveSteps K.tidx f new =
-      [.rename .tindexDat .tindexBak, .truncate .tindexDat, .append .tindexDat (K.tidx.enc new)] := by
+      [.truncate .tindexTmp, .append .tindexTmp (K.tidx.enc new), .remove .tindexBak, .link .tindexDat .tindexBak,
+       .rename .tindexTmp .tindexDat] := by
   simp [tindexSaveSteps, tindexSaveStepsOf, saveStateCalls, tindexCallSteps, writeFile, h]
 
-/-- **F05, the window**: after the rename and before the rewrite there is no `tindex.dat`; `loadState` takes that for
-an empty index (`tindex.bak` is never read: `loadStateReadsBackup = false`) and `checkConsistency` refuses to start as
-soon as one journal exists. -/
-theorem cex_tindex_window (K : Codecs) (parseOk : TagLine → Bool) (f : Files) (old new : TMap) (j : Src) (js : List Src)
-    (h : f .tindexDat = some (K.tidx.enc old)) :
-    loadStateReadsBackup = false ∧
-    checkConsistency K.tidx parseOk (diskAt f (tindexSaveSteps K.tidx f new) ⟨1, 0⟩) (j :: js) = none := by
-  refine ⟨by decide, ?_⟩
-  rw [saveSteps_eq K f old new h]
-  simp [diskAt, runSteps, applyStep, h, checkConsistency, loadState, Files.set, tmapHasSrc]
+/-- what start-up finds depends on `tindex.dat` only -/
+theorem cc_map (c : Codec TMap) (parseOk : TagLine → Bool) (f : Files) (js : List Src) :
+    (checkConsistency c parseOk f js).map (·.1) =
+      (loadState c parseOk f).bind (fun m => if js.all (tmapHasSrc m) then some m else none) := by
+  unfold checkConsistency
+  cases loadState c parseOk f with
+  | none => rfl
+  | some m =>
+    show Option.map (fun (r : TMap × Files) => r.1) (if js.all (tmapHasSrc m) = true then _ else none) = if js.all (tmapHasSrc m) = true then some m else none
+    by_cases h : js.all (tmapHasSrc m) = true
+    · rw [if_pos h, if_pos h]; rfl
+    · rw [if_neg h, if_neg h]; rfl
 
-/-- **F05, torn**: rename and truncate done, any strict prefix of the new content written (also nothing): the file
-does not decode and start-up fails, whatever journals exist. -/
-theorem cex_tindex_torn (K : Codecs) (hK : K.Laws) (parseOk : TagLine → Bool) (f : Files) (old new : TMap) (js : List Src)
-    (n : Nat) (hn : n < (K.tidx.enc new).length) (h : f .tindexDat = some (K.tidx.enc old)) :
-    checkConsistency K.tidx parseOk (diskAt f (tindexSaveSteps K.tidx f new) ⟨2, n⟩) js = none := by
-  rw [saveSteps_eq K f old new h]
-  simp [diskAt, runSteps, applyStep, h, checkConsistency, loadState, Files.set, hK.tidx.torn new n hn]
+theorem loadState_congr (c : Codec TMap) (parseOk : TagLine → Bool) (f g : Files) (h : f .tindexDat = g .tindexDat) :
+    loadState c parseOk f = loadState c parseOk g := by
+  simp [loadState, h]
 
-/-- **Crash-atomicity outside the rename→rewrite window**: a cut before anything happened finds `old`; a cut after the
-complete rewrite finds `new`. -/
-theorem tindex_crash_atomic_partial (K : Codecs) (hK : K.Laws) (parseOk : TagLine → Bool) (f : Files) (old new : TMap)
-    (js : List Src) (c : Cut) (h : f .tindexDat = some (K.tidx.enc old))
-    (ho : old.all (fun e => parseOk e.1) = true) (hn : new.all (fun e => parseOk e.1) = true)
-    (hjo : js.all (tmapHasSrc old) = true) (hjn : js.all (tmapHasSrc new) = true)
-    (hc : c.k = 0 ∨ (c.k = 2 ∧ (K.tidx.enc new).length ≤ c.len) ∨ 3 ≤ c.k) :
-    (checkConsistency K.tidx parseOk (diskAt f (tindexSaveSteps K.tidx f new) c) js).map (·.1) = some old ∨
-    (checkConsistency K.tidx parseOk (diskAt f (tindexSaveSteps K.tidx f new) c) js).map (·.1) = some new := by
+/-- at every cut of the save (every number of completed steps, every prefix of the temp file's content)
+`tindex.dat` holds the complete old or the complete new content -/
+theorem dat_at_cut (K : Codecs) (f : Files) (old new : TMap) (c : Cut) (h : f .tindexDat = some (K.tidx.enc old)) :
+    diskAt f (tindexSaveSteps K.tidx f new) c .tindexDat = some (K.tidx.enc old) ∨
+    diskAt f (tindexSaveSteps K.tidx f new) c .tindexDat = some (K.tidx.enc new) := by
   rw [saveSteps_eq K f old new h]
   obtain ⟨k, len⟩ := c
-  rcases hc with hc | ⟨hc, hl⟩ | hc
-  · simp only at hc; subst hc
+  match k with
+  | 0 => left; simp [diskAt, runSteps, h]
+  | 1 => left; simp [diskAt, runSteps, applyStep, Files.set, h]
+  | 2 => left; simp [diskAt, runSteps, applyStep, Files.set, h]
+  | 3 => left; simp [diskAt, runSteps, applyStep, Files.set, h]
+  | 4 =>
     left
-    simp [diskAt, runSteps, checkConsistency, loadState, h, hK.tidx.rt, ho, hjo]
-  · simp only at hc hl; subst hc
+    simp only [diskAt, List.take, List.getElem?_cons_succ, List.getElem?_cons_zero, runSteps, List.foldl]
+    rw [applyStep_frame _ _ _ (by simp [Step.touches]), applyStep_frame _ _ _ (by simp [Step.touches]),
+      applyStep_frame _ _ _ (by simp [Step.touches]), applyStep_frame _ _ _ (by simp [Step.touches]), h]
+  | k + 5 =>
     right
-    simp [diskAt, runSteps, applyStep, h, checkConsistency, loadState, Files.set, List.take_of_length_le hl, hK.tidx.rt, hn, hjn]
-  · simp only at hc
-    have e : ([Step.rename .tindexDat .tindexBak, .truncate .tindexDat, .append .tindexDat (K.tidx.enc new)] : List Step).take k
-        = [Step.rename .tindexDat .tindexBak, .truncate .tindexDat, .append .tindexDat (K.tidx.enc new)] :=
-      List.take_of_length_le (by simp; omega)
-    have e2 : ([Step.rename .tindexDat .tindexBak, .truncate .tindexDat, .append .tindexDat (K.tidx.enc new)] : List Step)[k]? = none := by
-      apply List.getElem?_eq_none; simp; omega
+    have e : ([Step.truncate .tindexTmp, .append .tindexTmp (K.tidx.enc new), .remove .tindexBak, .link .tindexDat .tindexBak,
+        .rename .tindexTmp .tindexDat] : List Step).take (k + 5) = _ := List.take_of_length_le (by simp)
+    have e2 : ([Step.truncate .tindexTmp, .append .tindexTmp (K.tidx.enc new), .remove .tindexBak, .link .tindexDat .tindexBak,
+        .rename .tindexTmp .tindexDat] : List Step)[k + 5]? = none := by
+      apply List.getElem?_eq_none; simp
+    simp only [diskAt, e, e2]
+    simp only [runSteps, List.foldl]
+    have ht : ∀ g : Files, applyStep (applyStep g (.truncate .tindexTmp)) (.append .tindexTmp (K.tidx.enc new)) .tindexTmp
+        = some (K.tidx.enc new) := by intro g; simp [applyStep, Files.set]
+    -- the temp file survives the backup steps, then is renamed over tindex.dat
+    generalize hg : applyStep (applyStep f (.truncate .tindexTmp)) (.append .tindexTmp (K.tidx.enc new)) = g
+    have hgt : g .tindexTmp = some (K.tidx.enc new) := by rw [← hg]; exact ht f
+    have h3 : applyStep (applyStep g (.remove .tindexBak)) (.link .tindexDat .tindexBak) .tindexTmp = some (K.tidx.enc new) := by
+      rw [applyStep_frame _ _ _ (by simp [Step.touches]), applyStep_frame _ _ _ (by simp [Step.touches]), hgt]
+    generalize applyStep (applyStep g (.remove .tindexBak)) (.link .tindexDat .tindexBak) = X at h3
+    simp [applyStep, h3, Files.set]
+
+/-- **The tag-index save is crash-atomic** (was finding F05): wherever the save of `new` over `old` is cut — after any
+step, at any prefix of the temp file — start-up finds `old` or `new` (given that both cover the journals on disk). -/
+theorem tindex_crash_atomic (K : Codecs) (hK : K.Laws) (parseOk : TagLine → Bool) (f : Files) (old new : TMap)
+    (js : List Src) (c : Cut) (h : f .tindexDat = some (K.tidx.enc old))
+    (ho : old.all (fun e => parseOk e.1) = true) (hn : new.all (fun e => parseOk e.1) = true)
+    (hjo : js.all (tmapHasSrc old) = true) (hjn : js.all (tmapHasSrc new) = true) :
+    (checkConsistency K.tidx parseOk (diskAt f (tindexSaveSteps K.tidx f new) c) js).map (·.1) = some old ∨
+    (checkConsistency K.tidx parseOk (diskAt f (tindexSaveSteps K.tidx f new) c) js).map (·.1) = some new := by
+  rw [cc_map]
+  rcases dat_at_cut K f old new c h with hd | hd
+  · left
+    have hl : loadState K.tidx parseOk (diskAt f (tindexSaveSteps K.tidx f new) c) = some old := by
+      simp [loadState, hd, hK.tidx.rt, ho]
+    rw [hl]
+    show (if js.all (tmapHasSrc old) = true then some old else none) = some old
+    rw [if_pos hjo]
+  · right
+    have hl : loadState K.tidx parseOk (diskAt f (tindexSaveSteps K.tidx f new) c) = some new := by
+      simp [loadState, hd, hK.tidx.rt, hn]
+    rw [hl]
+    show (if js.all (tmapHasSrc new) = true then some new else none) = some new
+    rw [if_pos hjn]
+
+/-- the same for the very first save (no `tindex.dat` yet): start-up finds the empty index or `new` -/
+theorem tindex_crash_atomic_fresh (K : Codecs) (hK : K.Laws) (parseOk : TagLine → Bool) (f : Files) (new : TMap) (c : Cut)
+    (h : f .tindexDat = none) (hn : new.all (fun e => parseOk e.1) = true) :
+    loadState K.tidx parseOk (diskAt f (tindexSaveSteps K.tidx f new) c) = some [] ∨
+    loadState K.tidx parseOk (diskAt f (tindexSaveSteps K.tidx f new) c) = some new := by
+  have hs : tindexSaveSteps K.tidx f new =
+      [.truncate .tindexTmp, .append .tindexTmp (K.tidx.enc new), .rename .tindexTmp .tindexDat] := by
+    simp [tindexSaveSteps, tindexSaveStepsOf, saveStateCalls, tindexCallSteps, writeFile, h]
+  rw [hs]
+  obtain ⟨k, len⟩ := c
+  match k with
+  | 0 => left; simp [diskAt, runSteps, loadState, h]
+  | 1 => left; simp [diskAt, runSteps, applyStep, Files.set, loadState, h]
+  | 2 => left; simp [diskAt, runSteps, applyStep, Files.set, loadState, h]
+  | k + 3 =>
     right
-    simp only [diskAt, e2, e]
-    simp [runSteps, applyStep, h, checkConsistency, loadState, Files.set, hK.tidx.rt, hn, hjn]
+    have e : ([Step.truncate .tindexTmp, .append .tindexTmp (K.tidx.enc new), .rename .tindexTmp .tindexDat] : List Step).take (k + 3)
+        = _ := List.take_of_length_le (by simp)
+    have e2 : ([Step.truncate .tindexTmp, .append .tindexTmp (K.tidx.enc new), .rename .tindexTmp .tindexDat] : List Step)[k + 3]?
+        = none := by apply List.getElem?_eq_none; simp
+    simp only [diskAt, e, e2]
+    simp [runSteps, applyStep, Files.set, loadState, hK.tidx.rt, hn]
+
+/-! ## the registry file -/
+
+/-- **The registry save is crash-atomic** (was finding F41): at every cut of `savePipes` the registry file reads as
+before the save or as the complete new list — never torn, never empty. -/
+theorem pipes_dat_crash_atomic (K : Codecs) (hK : K.Laws) (f : Files) (new : List Pipe) (c : Cut) :
+    loadPipes K.pipes (diskAt f (savePipesSteps K.pipes new) c) = loadPipes K.pipes f ∨
+    loadPipes K.pipes (diskAt f (savePipesSteps K.pipes new) c) = some new := by
+  rw [savePipesSteps_eq]
+  have hne := pipesDat_ne_tmp
+  obtain ⟨k, len⟩ := c
+  match k with
+  | 0 => left; simp [diskAt, runSteps]
+  | 1 => left; simp [diskAt, runSteps, applyStep, Files.set, loadPipes, hne]
+  | 2 => left; simp [diskAt, runSteps, applyStep, Files.set, loadPipes, hne]
+  | k + 3 =>
+    right
+    have e : ([Step.truncate pipesTmp, .append pipesTmp (K.pipes.enc new), .rename pipesTmp pipesDat] : List Step).take (k + 3)
+        = _ := List.take_of_length_le (by simp)
+    have e2 : ([Step.truncate pipesTmp, .append pipesTmp (K.pipes.enc new), .rename pipesTmp pipesDat] : List Step)[k + 3]?
+        = none := by apply List.getElem?_eq_none; simp
+    simp only [diskAt, e, e2]
+    simp [runSteps, applyStep, Files.set, loadPipes, hK.pipes.rt, hne]
 
 /-! ## pipes -/
 
 def s0 : Srv := ⟨⟨[], [], []⟩, Disk.fresh⟩
 
-/-- **F07**: an acknowledged CREATE PIPE is not on disk (`savePipes` is called only by `Shutdown`:
-`pipeDefsSavedOnCreate = false`); a server started on the crash image has no pipes. -/
-theorem cex_pipe_def_lost_on_crash (K : Codecs) (parseOk : TagLine → Bool) (p : Pipe) :
-    let s1 := step K s0 (.createPipe p)
-    s1.mem.pipes.map (·.cfg) = [p] ∧
-    (match recover K parseOk s1.disk with
-     | .started s' => s'.mem.pipes = []
-     | _ => False) := by
-  have hf : pipeDefsSavedOnCreate = false := by decide
-  simp [step, s0, hf, runSteps_nil, recover, checkConsistency, loadState,
-    Disk.fresh, Files.empty, journalsOnDisk, Files.set, pipesDat, pipesInit, loadPipes,
-    tindexSaveSteps, tindexSaveStepsOf, saveStateCalls, tindexCallSteps, writeFile, runSteps, applyStep]
+theorem checkConsistency_files (c : Codec TMap) (parseOk : TagLine → Bool) (f f1 : Files) (js : List Src) (m : TMap)
+    (h : checkConsistency c parseOk f js = some (m, f1)) : ∀ q, ¬ tindexPath q → f1 q = f q := by
+  unfold checkConsistency at h
+  cases hl : loadState c parseOk f with
+  | none => simp [hl] at h
+  | some m' =>
+    simp only [hl] at h
+    by_cases hj : js.all (tmapHasSrc m') = true
+    · simp only [hj, if_true, Option.some.injEq, Prod.mk.injEq] at h
+      intro q hq
+      rw [← h.2]
+      exact tindexSave_frame _ _ _ _ q hq
+    · simp [hj] at h
+
+/-- a server that starts on a disk whose registry file is the encoding of `ps` has exactly the definitions `ps` -/
+theorem recover_pipes (K : Codecs) (hK : K.Laws) (parseOk : TagLine → Bool) (d : Disk) (ps : List Pipe)
+    (h : d.files pipesDat = some (K.pipes.enc ps)) (s' : Srv) (hr : recover K parseOk d = .started s') :
+    s'.mem.pipes.map (·.cfg) = ps := by
+  unfold recover at hr
+  cases hc : checkConsistency K.tidx parseOk d.files (journalsOnDisk d.db) with
+  | none => simp [hc] at hr
+  | some r =>
+    obtain ⟨tm, f1⟩ := r
+    have hf := checkConsistency_files _ _ _ _ _ _ hc pipesDat (by simp [tindexPath, pipesDat])
+    simp only [hc, pipesInit, loadPipes, hf, h, hK.pipes.rt, Option.map_some] at hr
+    injection hr with hr
+    rw [← hr]
+    simp [List.map_map, Function.comp_def]
+
+/-- **An acknowledged CREATE PIPE survives every crash** (was finding F07): once `CreatePipe` has returned, the registry
+file holds the new list of definitions (`savePipes` is called by `CreatePipe`: `pipeDefsSavedOnCreate`), so a server
+started on the crash image has exactly these definitions — the new one among them. -/
+theorem acked_pipe_definition_survives_crash (K : Codecs) (hK : K.Laws) (parseOk : TagLine → Bool) (s : Srv) (p : Pipe)
+    (s' : Srv) (hr : recover K parseOk (step K s (.createPipe p)).disk = .started s') :
+    s'.mem.pipes.map (·.cfg) = s.mem.pipes.map (·.cfg) ++ [p] := by
+  have hf : pipeDefsSavedOnCreate = true := by decide
+  apply recover_pipes K hK parseOk _ _ _ s' hr
+  simp [step, hf, savePipes_at]
+
+/-- **An acknowledged DELETE PIPE survives every crash**: the deleted pipe is not in the registry a crash image holds
+(for a pipe whose position file is not the registry file — F33's class: there the removal of the position file removes
+the registry). -/
+theorem deleted_pipe_stays_deleted_after_crash (K : Codecs) (hK : K.Laws) (parseOk : TagLine → Bool) (s : Srv) (n : Bytes)
+    (hnc : pipeInfoPath n ≠ pipesDat) (s' : Srv) (hr : recover K parseOk (step K s (.deletePipe n)).disk = .started s') :
+    s'.mem.pipes.map (·.cfg) = (s.mem.pipes.filter (fun p => !(p.cfg.name == n))).map (·.cfg) ∧
+    ∀ q ∈ s'.mem.pipes, q.cfg.name ≠ n := by
+  have hf : pipeDefsSavedOnDelete = true := by decide
+  have h1 : s'.mem.pipes.map (·.cfg) = (s.mem.pipes.filter (fun p => !(p.cfg.name == n))).map (·.cfg) := by
+    apply recover_pipes K hK parseOk _ _ _ s' hr
+    have hsp := savePipes_at K.pipes ((s.mem.pipes.filter (fun p => !(p.cfg.name == n))).map (·.cfg)) s.disk.files pipesDat
+    rw [if_pos rfl] at hsp
+    simp only [runSteps] at hsp
+    simp only [step, hf, if_true, runSteps, List.foldl_append, List.foldl_cons, List.foldl_nil, applyStep]
+    rw [Files.set_other _ _ _ _ (Ne.symm hnc)]
+    exact hsp
+  refine ⟨h1, ?_⟩
+  intro q hq hqn
+  have : q.cfg ∈ s'.mem.pipes.map (·.cfg) := List.mem_map_of_mem hq
+  rw [h1] at this
+  obtain ⟨r, hr', hre⟩ := List.mem_map.mp this
+  have := (List.mem_filter.mp hr').2
+  rw [hre] at this
+  simp [hqn] at this
 
 theorem pipeFileName_s : pipeFileName [115] = pipesFileName := by decide
 
-/-- **F33, crash image**: the positions of a pipe named `s` are written to `pipes.dat`; `loadPipes` cannot decode a
-position map as a registry and `Service.Init` fails. -/
+/-- **F33, crash image** (still there after the repairs): the positions of a pipe named `s` are written to `pipes.dat`
+— in place, over the registry `CreatePipe` has just saved; `loadPipes` cannot decode a position map as a registry and
+`Service.Init` fails. The window stays open until the next `savePipes` (create / delete / shutdown). -/
 theorem cex_pipe_name_collision (K : Codecs) (hK : K.Laws) (parseOk : TagLine → Bool) (pm : PosMap) :
     pipeInfoPath [115] = pipesDat ∧
     recover K parseOk (run K s0 [.createPipe ⟨[115], [], []⟩, .savePipeInfo [115] pm]).disk = .refusedPipes := by
   have hp : pipeInfoPath [115] = pipesDat := by simp [pipeInfoPath, pipesDat, pipeFileName_s]
-  have hf : pipeDefsSavedOnCreate = false := by decide
   refine ⟨hp, ?_⟩
-  simp [run, step, s0, hf, runSteps_nil, savePipeInfoSteps, runSteps_writeFile, hp, recover, checkConsistency, loadState,
-    Disk.fresh, Files.empty, journalsOnDisk, Files.set, pipesDat, pipesInit, loadPipes, hK.crossPipes,
-    tindexSaveSteps, tindexSaveStepsOf, saveStateCalls, tindexCallSteps, writeFile, runSteps, applyStep]
-
-/-- **F41**: a crash while a graceful shutdown rewrites `pipes.dat` in place (truncated, a strict prefix written)
-leaves a registry that does not decode; `Service.Init` fails. -/
-theorem cex_pipes_dat_torn (K : Codecs) (hK : K.Laws) (parseOk : TagLine → Bool) (p : Pipe) (n : Nat)
-    (hn : n < (K.pipes.enc [p]).length) :
-    let s1 := step K s0 (.createPipe p)
-    recover K parseOk { s1.disk with files := diskAt s1.disk.files (shutdownSteps K s1.mem) ⟨1, n⟩ } = .refusedPipes := by
-  have hf : pipeDefsSavedOnCreate = false := by decide
-  simp [step, s0, hf, runSteps_nil, shutdownSteps, savePipesSteps, cindexSaveSteps, writeFile, diskAt, runSteps, applyStep,
-    recover, checkConsistency, loadState, Disk.fresh, Files.empty, journalsOnDisk, Files.set, pipesDat, pipesInit, loadPipes,
-    hK.pipes.torn [p] n hn, tindexSaveSteps, tindexSaveStepsOf, saveStateCalls, tindexCallSteps]
+  have hfile : (run K s0 [.createPipe ⟨[115], [], []⟩, .savePipeInfo [115] pm]).disk.files pipesDat = some (K.pinfo.enc pm) := by
+    simp only [run, List.foldl, step, savePipeInfoSteps, runSteps_writeFile, hp]
+    simp
+  have hdb : (run K s0 [.createPipe ⟨[115], [], []⟩, .savePipeInfo [115] pm]).disk.db = [] := by
+    simp [run, step, s0, Disk.fresh]
+  have hti : (run K s0 [.createPipe ⟨[115], [], []⟩, .savePipeInfo [115] pm]).disk.files .tindexDat = none := by
+    simp only [run, List.foldl, step, savePipeInfoSteps, runSteps_writeFile, hp]
+    rw [Files.set_other _ _ _ _ (by simp [pipesDat])]
+    have hf : pipeDefsSavedOnCreate = true := by decide
+    simp only [hf, if_true]
+    rw [savePipes_at]
+    simp [pipesDat, pipesTmp, s0, Disk.fresh, Files.empty]
+  generalize (run K s0 [.createPipe ⟨[115], [], []⟩, .savePipeInfo [115] pm]).disk = d at hfile hdb hti
+  unfold recover
+  cases hc : checkConsistency K.tidx parseOk d.files (journalsOnDisk d.db) with
+  | none => simp [checkConsistency, loadState, hti, hdb, journalsOnDisk] at hc
+  | some r =>
+    obtain ⟨tm, f1⟩ := r
+    have hf := checkConsistency_files _ _ _ _ _ _ hc pipesDat (by simp [tindexPath, pipesDat])
+    simp [pipesInit, loadPipes, hf, hfile, hK.crossPipes]
 
 /-- **F42**: nothing in the shutdown sequence syncs the journals (`partitionShutdownSyncsJournals = false`): records of
 an acknowledged write that are still in the chunk writer's buffer are not in the journal after a graceful stop. -/
